@@ -271,7 +271,7 @@ def r3(repo, run):
             continue
         if ld is None or ld.closure is None:
             raise AnalysisError('yaml.parse: the Loader argument of yaml.load_all (%s) is not a function the analysis can follow' % (ld.text[:60] if ld is not None else None))
-        t, cps = Tracer(repo, follow_exceptions=False).trace_closure(ld)
+        t, cps = Tracer(repo, follow_exceptions=False).trace_closure(ld, heap=e.heap)
         for q in cps:
             mk = [x for x in q.events if x.kind == 'call' and x.callee == 'AwesomeyamlLoader']
             if q.status != 'return' or len(mk) != 1 or q.ret is None or q.ret.text != mk[0].result.text:
